@@ -29,7 +29,8 @@ def check(ctx):
         "hashes are injective on the contents a run uses (content ids)",
         "theorems about staging/isolation assume deltas naming each URI once and canonical URIs (OpOk); "
         "the two ways this fails on the code are recorded findings F-C10-1 (nested jails) and F-C10-2 (scheme case)",
-        "the four merge cases that cannot be reached by verified deltas are modelled but only the reachable eight are exercised",
+        "the twelve merge cases of StagedElements::merge_new_elements are compared exhaustively (staged kind x new kind x hash relation x "
+        "URI case variant) through a cfg-gated wrapper (corpus/pubd/merge-table.ops); only eight of them are reachable by verified deltas",
     ]
     return vlib.finish(ctx, "proof", RULE)
 
